@@ -399,6 +399,44 @@ def r5_std_from_variance(ctx):
         raise AnalysisError("C04.R5", "anchor vanished: compute_std_from_variance")
 
 
+def r6_parameters_written_by_the_update_only(ctx):
+    """Every update rule reads the parameters of the previous iteration ('old' means): within a maximisation step nothing but the
+    batched assignment at the end of update_parameters may write a model parameter - in particular not the computation of the
+    sufficient statistics (re-centring, normalisations ...) that runs first."""
+    from ..specgraph import graphs
+    from ._shared import callgraph
+    ctx.rule("C04.R6", "inside a maximisation step model parameters are written by the batched update only", 4)
+    params = set()
+    for g in graphs(ctx):
+        params |= {n.name for n in g.by_kind("ModelParameter")}
+    step = ctx.ix.func(FIT, "TensorMcmcSaemAlgorithm._maximization_step", "C04.R6")
+    cg = callgraph(ctx)
+    region = cg.reach([step])
+    n = 0
+    for k in sorted(region):
+        f = ctx.ix.funcs[k]
+        if f.qual.endswith(".update_parameters"):
+            continue
+        for st in statements(f.node):
+            names = []
+            if isinstance(st, (ast.Assign, ast.AugAssign)):
+                for t in (st.targets if isinstance(st, ast.Assign) else [st.target]):
+                    if isinstance(t, ast.Subscript) and isinstance(t.slice, ast.Constant) and t.slice.value in params:
+                        names.append(t.slice.value)
+            elif isinstance(st, ast.Expr) and isinstance(st.value, ast.Call) and isinstance(st.value.func, ast.Attribute) and st.value.func.attr == "put" and st.value.args \
+                    and isinstance(st.value.args[0], ast.Constant) and st.value.args[0].value in params:
+                names.append(st.value.args[0].value)
+            for nm in names:
+                n += 1
+                ctx.violation("C04.R6", f, st, f"`{U(st)[:80]}` writes the model parameter `{nm}` during the maximisation step, outside the batched update "
+                              f"({' -> '.join(cg.path_to(region, k)[-3:])}): the update rules then read a modified 'previous' value, so the new parameters are not the closed-form maximiser "
+                              "given the statistics and the parameters of the previous iteration")
+    ctx.ok("C04.R6", step, step.node, f"{len(region)} functions reachable from the maximisation step, {len(params)} model-parameter names: no write outside update_parameters",
+           construct="writers of model parameters in the step")
+    for g in graphs(ctx):
+        ctx.ok("C04.R6", step, None, f"{g.cfg.name}: parameter names collected", construct="parameter names", instance=g.cfg.name)
+
+
 def rules(ctx):
     r1_two_phase(ctx)
     r2_tables(ctx)
@@ -406,6 +444,7 @@ def rules(ctx):
     r3_noise(ctx)
     r4_in_force(ctx)
     r5_std_from_variance(ctx)
+    r6_parameters_written_by_the_update_only(ctx)
     # the noise updates (R3 / R3b) take sum_dim / wsum_dim(...) with their documented meaning: their bodies are compared with the confirmed forms
     from ._shared import weighted_helper_forms
     weighted_helper_forms(ctx, "C04.R3b")
